@@ -83,6 +83,42 @@ def check_combink(c):
         raise Violation("combink:list-changed", c["l"], l)
 
 
+def check_combink_history(c):
+    """several combink generators in one process: consumed completely, abandoned after j items (closed, dropped, or
+    kept suspended and drained at the end).  Every item sequence is the itertools.combinations one."""
+    kept = []
+    for i, (l, p, take, how) in enumerate(c["calls"]):
+        l = list(l)
+        exp = [list(x) for x in itertools.combinations(l, p)]
+        g = guard(P.combink, l, p, 0)
+        if take is None:
+            got = guard(lambda: [list(x) for x in g])
+            if got != exp:
+                raise Violation("combink:history:full-call!=itertools.combinations", {"call": i, "first": exp[:6]}, {"call": i, "first": got[:6]})
+            continue
+        take = min(take, len(exp))
+        got = guard(lambda: [list(x) for x in itertools.islice(g, take)])
+        if got != exp[:take]:
+            raise Violation("combink:history:prefix!=itertools.combinations", {"call": i, "first": exp[:take][:6]}, {"call": i, "first": got[:6]})
+        if how == "close":
+            g.close()
+        elif how == "keep":
+            kept.append((i, g, exp[take:]))
+        del g
+    for i, g, rest in kept:
+        got = guard(lambda: [list(x) for x in g])
+        if got != rest:
+            raise Violation("combink:history:resumed-generator!=itertools.combinations", {"call": i, "rest": rest[:6]}, {"call": i, "rest": got[:6]})
+
+
+def combink_history_strategy(tier):
+    def call(n):
+        return st.tuples(st.sampled_from([tuple(range(n)), tuple("abcdefghij"[:n])]), gen.uint(1, n),
+                         gen.pick((2, st.none()), (3, gen.uint(0, 4))), st.sampled_from(["close", "drop", "keep"]))
+    calls = st.lists(gen.uint(1, 8 if tier == "quick" else 10).flatmap(call), min_size=2, max_size=5)
+    return calls.map(lambda cs: {"calls": tuple(cs) + ((tuple(range(8)), 7, None, "close"), (tuple(range(3)), 2, None, "close"))})
+
+
 def lists(tier):
     top = 8 if tier == "quick" else 9
     for n in range(top + 1):
@@ -224,6 +260,11 @@ FACETS = [
     Facet("combink-exhaustive", check_combink, cases=combink_cases, exhaustive=True, distinct=True, shards={"quick": 4, "thorough": 8},
           nontrivial=lambda c: len(c["l"]) >= 3, classify=lambda c: ("n=%d" % len(c["l"]), "called twice" if c.get("repeat", 1) > 1 else "once"),
           rule="n = 1..7 (8), every p in 1..n, lists of ints / strings / repeated elements: list(combink(l,p,0)) == itertools.combinations, also on a second call"),
+    Facet("combink-histories", check_combink_history, strategy=combink_history_strategy, budget={"quick": 1500, "thorough": 30000},
+          nontrivial=lambda c: any(t is not None for _, _, t, _ in c["calls"]),
+          classify=lambda c: tuple(sorted(set(h for _, _, t, h in c["calls"] if t is not None))) or ("all consumed",),
+          rule="4..7 combink generators in one process (n = 1..8 (10), every p): consumed completely or abandoned after 0..4 items "
+               "(closed / dropped / kept suspended and drained at the end); every sequence, prefix and remainder == itertools.combinations"),
     Facet("subset-sum-all-targets", check_knapsack, cases=knapsack_cases, distinct=False, shards={"quick": 16, "thorough": 32},
           nontrivial=lambda c: len(c["items"]) >= 2, classify=lambda c: ("n=%d" % len(c["items"]), "called twice" if c.get("repeat") else "once"),
           rule="fixed corner cases + 600 (3000) random item lists (n <= 7 (9), weights 1..12, duplicates, identical couples) x EVERY target 0..sum+1, "
